@@ -2,7 +2,7 @@
 
 PROP = {'gen_tables': ['Pools'],
  'race': True,
- 'rule': 'ops: histories. Each case = one observed call + a history of 1–12 operations. Observed call: (70 %) an encoder-family op '
+ 'rule': 'ops: histories (quick: 108 targeted + 700 random pinned + 60 concurrent; thorough: 108 + 12000 + 800). Each case = one observed call + a history of 1–12 operations. Observed call: (70 %) an encoder-family op '
          '(JSON or console; the generator of C01/C02/C10/C16: hostile keys, nested marshalers, dangling namespaces, reflected values, '
          'failing marshalers, error groups; a third through a core built BEFORE the history, a fifth with a sink that logs re-entrantly) '
          'or (30 %) a logger-level call (AddCaller, AddStacktrace, Development, panic/fatal hooks that return, failing sink, With fields; '
